@@ -140,7 +140,7 @@ def run_task(args):
     from . import sym
 
     out = dict(harness=hname, cfg=cfg, stats={}, left=[], confirmed=[], nonrepro=[], errors=[], witness=[], samples=[],
-               functions=[], validated=0, mismatches=[], npaths_nontrivial=0)
+               functions=[], validated=0, mismatches=[], npaths_nontrivial=0, unknowns=[])
     try:
         _, hs = load(prop)
         h = hs[hname]
@@ -154,6 +154,7 @@ def run_task(args):
         except Exception as e:  # noqa: BLE001
             out["errors"].append(f"{type(e).__name__} escaped {hname} {cfg}: {e}\n{traceback.format_exc(limit=12)}")
         out["stats"] = ex.stats.as_dict()
+        out["unknowns"] = [f"{u} cfg={cfg}" for u in ex.unknowns[:5]]
         out["witness"] = sorted(ex.witness)
         if tracer is not None:
             out["functions"] = sorted(tracer.seen)
@@ -247,7 +248,7 @@ def main(argv):
     for name, h in sorted(hs.items()):
         for cfg in (h.quick if tier == "quick" else h.thorough):
             tasks.append((prop, name, cfg, [[]], slice_paths, slice_s, validate_cap))
-    agg = dict(stats={}, confirmed=[], nonrepro=[], errors=[], witness={}, samples=[], functions=set(), validated=0, mismatches=[],
+    agg = dict(stats={}, unknowns=[], confirmed=[], nonrepro=[], errors=[], witness={}, samples=[], functions=set(), validated=0, mismatches=[],
                tasks=0, configs=len(tasks), nontrivial=0)
     ctxmp = multiprocessing.get_context("fork")
     timed_out = False
@@ -269,7 +270,7 @@ def main(argv):
                 agg["tasks"] += 1
                 for k, v in o["stats"].items():
                     agg["stats"][k] = agg["stats"].get(k, 0) + v
-                for k in ("confirmed", "nonrepro", "errors", "mismatches"):
+                for k in ("confirmed", "nonrepro", "errors", "mismatches", "unknowns"):
                     agg[k].extend(o[k])
                 for w in o["witness"]:
                     agg["witness"].setdefault(o["harness"], set()).add(w)
@@ -326,7 +327,7 @@ def report(prop, tier, seed, mod, hs, agg, wall, timed_out):
     if timed_out:
         problems.append("INCONCLUSIVE deadline exceeded before the exploration finished")
     if st.get("inconclusive", 0):
-        problems.append(f"INCONCLUSIVE {st['inconclusive']} solver answers were unknown/time-out")
+        problems.append(f"INCONCLUSIVE {st['inconclusive']} solver answers were unknown/time-out: {agg['unknowns'][:6]}")
     for e in agg["errors"][:5]:
         problems.append("HARNESS-ERROR " + e)
     for r in agg["nonrepro"][:5]:
